@@ -15,6 +15,8 @@
 -/
 import RtamtProofs.Lemmas.Lawful
 import Rtamt.Discrete.Explain
+import Mathlib.Order.Fin.Basic
+import RtamtProofs.Lemmas.Instance
 
 namespace Rtamt
 open Val
@@ -27,36 +29,1523 @@ def holdsAs (flag : Bool) (v : α) : Prop := if flag then isSat v = true else is
 /-- All positions covered by an interval list, below `n`. -/
 def covered (I : Ivs) (t : Nat) : Prop := ∃ p ∈ I, p.1 ≤ t ∧ t ≤ p.2
 
-/-- Generalised invariant: if the formula has the polarity `flag` at every covered position of
+/-! ### interval lists -/
+
+theorem covered_nil (t : Nat) : ¬ covered [] t := by
+  rintro ⟨p, hp, _⟩; cases hp
+
+theorem covered_cons (p : Nat × Nat) (I : Ivs) (t : Nat) :
+    covered (p :: I) t ↔ (p.1 ≤ t ∧ t ≤ p.2) ∨ covered I t := by
+  unfold covered; simp
+
+theorem covered_append (I J : Ivs) (t : Nat) :
+    covered (I ++ J) t ↔ covered I t ∨ covered J t := by
+  unfold covered
+  constructor
+  · rintro ⟨p, hp, h⟩
+    rcases List.mem_append.1 hp with hp | hp
+    · exact Or.inl ⟨p, hp, h⟩
+    · exact Or.inr ⟨p, hp, h⟩
+  · rintro (⟨p, hp, h⟩ | ⟨p, hp, h⟩)
+    · exact ⟨p, List.mem_append.2 (Or.inl hp), h⟩
+    · exact ⟨p, List.mem_append.2 (Or.inr hp), h⟩
+
+theorem covered_flatMap (h : Nat × Nat → Ivs) (I : Ivs) (t : Nat) :
+    covered (I.flatMap h) t ↔ ∃ q ∈ I, covered (h q) t := by
+  unfold covered
+  constructor
+  · rintro ⟨p, hp, ht⟩
+    obtain ⟨q, hq, hpq⟩ := List.mem_flatMap.1 hp
+    exact ⟨q, hq, p, hpq, ht⟩
+  · rintro ⟨q, hq, p, hpq, ht⟩
+    exact ⟨p, List.mem_flatMap.2 ⟨q, hq, hpq⟩, ht⟩
+
+/-- Disjoint and increasing. -/
+def Dj (I : Ivs) : Prop := I.Pairwise (fun p q => p.2 < q.1)
+
+/-! ### `runs` -/
+
+theorem runsLoop_covered (S : Nat → Bool) (e : Nat) :
+    ∀ (k i : Nat) (cur : Option Nat), i + k = e + 1 → (∀ s, cur = some s → s < i) →
+      ∀ t, covered (runsLoop S e k i cur) t ↔
+        (∃ s, cur = some s ∧ s ≤ t ∧ t ≤ e ∧ ∀ u, i ≤ u → u ≤ t → S u = true) ∨
+        (i ≤ t ∧ t ≤ e ∧ S t = true) := by
+  intro k
+  induction k with
+  | zero =>
+    intro i cur hik hcur t
+    cases cur with
+    | none => simp [runsLoop, covered_nil]; omega
+    | some s =>
+      simp only [runsLoop, covered_cons, covered_nil, or_false]
+      constructor
+      · rintro ⟨h1, h2⟩
+        exact Or.inl ⟨s, rfl, h1, h2, fun u hu hu' => by omega⟩
+      · rintro (⟨s', hs', h1, h2, _⟩ | ⟨h1, h2, _⟩)
+        · cases hs'; exact ⟨h1, h2⟩
+        · omega
+  | succ k ih =>
+    intro i cur hik hcur t
+    cases cur with
+    | none =>
+      cases hS : S i with
+      | true =>
+        simp only [runsLoop, hS]
+        rw [ih (i + 1) (some i) (by omega) (by intro s hs; cases hs; omega)]
+        constructor
+        · rintro (⟨s, hs, h1, h2, h3⟩ | ⟨h1, h2, h3⟩)
+          · cases hs
+            refine Or.inr ⟨h1, h2, ?_⟩
+            rcases Nat.eq_or_lt_of_le h1 with h | h
+            · rw [← h]; exact hS
+            · exact h3 t (by omega) le_rfl
+          · exact Or.inr ⟨by omega, h2, h3⟩
+        · rintro (⟨s, hs, _⟩ | ⟨h1, h2, h3⟩)
+          · cases hs
+          · by_cases hall : ∀ u, i + 1 ≤ u → u ≤ t → S u = true
+            · exact Or.inl ⟨i, rfl, h1, h2, hall⟩
+            · refine Or.inr ⟨?_, h2, h3⟩
+              by_contra hlt
+              apply hall
+              intro u hu hu'
+              have : u = t := by omega
+              omega
+      | false =>
+        simp only [runsLoop, hS]
+        rw [ih (i + 1) none (by omega) (by intro s hs; cases hs)]
+        constructor
+        · rintro (⟨s, hs, _⟩ | ⟨h1, h2, h3⟩)
+          · cases hs
+          · exact Or.inr ⟨by omega, h2, h3⟩
+        · rintro (⟨s, hs, _⟩ | ⟨h1, h2, h3⟩)
+          · cases hs
+          · refine Or.inr ⟨?_, h2, h3⟩
+            rcases Nat.eq_or_lt_of_le h1 with h | h
+            · rw [← h, hS] at h3; cases h3
+            · omega
+    | some s =>
+      have hs := hcur s rfl
+      cases hS : S i with
+      | true =>
+        simp only [runsLoop, hS]
+        rw [ih (i + 1) (some s) (by omega) (by intro s' hs'; cases hs'; omega)]
+        constructor
+        · rintro (⟨s', hs', h1, h2, h3⟩ | ⟨h1, h2, h3⟩)
+          · cases hs'
+            by_cases hti : t < i
+            · exact Or.inl ⟨s, rfl, h1, h2, fun u hu hu' => by omega⟩
+            · refine Or.inl ⟨s, rfl, h1, h2, fun u hu hu' => ?_⟩
+              rcases Nat.eq_or_lt_of_le hu with h | h
+              · rw [← h]; exact hS
+              · exact h3 u (by omega) hu'
+          · exact Or.inr ⟨by omega, h2, h3⟩
+        · rintro (⟨s', hs', h1, h2, h3⟩ | ⟨h1, h2, h3⟩)
+          · cases hs'
+            exact Or.inl ⟨s, rfl, h1, h2, fun u hu hu' => h3 u (by omega) hu'⟩
+          · by_cases hall : ∀ u, i + 1 ≤ u → u ≤ t → S u = true
+            · exact Or.inl ⟨s, rfl, by omega, h2, hall⟩
+            · refine Or.inr ⟨?_, h2, h3⟩
+              by_contra hlt
+              apply hall
+              intro u hu hu'
+              omega
+      | false =>
+        simp only [runsLoop, hS, covered_cons]
+        rw [ih (i + 1) none (by omega) (by intro s' hs'; cases hs')]
+        constructor
+        · rintro (⟨h1, h2⟩ | ⟨s', hs', _⟩ | ⟨h1, h2, h3⟩)
+          · exact Or.inl ⟨s, rfl, h1, by omega, fun u hu hu' => by omega⟩
+          · cases hs'
+          · exact Or.inr ⟨by omega, h2, h3⟩
+        · rintro (⟨s', hs', h1, h2, h3⟩ | ⟨h1, h2, h3⟩)
+          · cases hs'
+            by_cases hti : t < i
+            · exact Or.inl ⟨h1, by omega⟩
+            · have := h3 i le_rfl (by omega)
+              rw [hS] at this; cases this
+          · refine Or.inr (Or.inr ⟨?_, h2, h3⟩)
+            rcases Nat.eq_or_lt_of_le h1 with h | h
+            · rw [← h, hS] at h3; cases h3
+            · omega
+
+theorem runsLoop_struct (S : Nat → Bool) (e : Nat) :
+    ∀ (k i : Nat) (cur : Option Nat), i + k = e + 1 → (∀ s, cur = some s → s < i) →
+      (∀ r ∈ runsLoop S e k i cur, r.1 ≤ r.2 ∧ r.2 ≤ e ∧ (cur.getD i) ≤ r.1) ∧
+      Dj (runsLoop S e k i cur) := by
+  intro k
+  induction k with
+  | zero =>
+    intro i cur hik hcur
+    cases cur with
+    | none => simp [runsLoop, Dj]
+    | some s =>
+      have := hcur s rfl
+      simp only [runsLoop, Dj, List.mem_singleton, List.pairwise_singleton, and_true, Option.getD_some]
+      rintro r rfl
+      simp; omega
+  | succ k ih =>
+    intro i cur hik hcur
+    cases cur with
+    | none =>
+      cases hS : S i with
+      | true =>
+        simp only [runsLoop, hS]
+        obtain ⟨h1, h2⟩ := ih (i + 1) (some i) (by omega) (by intro s hs; cases hs; omega)
+        exact ⟨fun r hr => by simpa using h1 r hr, h2⟩
+      | false =>
+        simp only [runsLoop, hS]
+        obtain ⟨h1, h2⟩ := ih (i + 1) none (by omega) (by intro s hs; cases hs)
+        refine ⟨fun r hr => ?_, h2⟩
+        have := h1 r hr
+        simp only [Option.getD_none] at this ⊢
+        omega
+    | some s =>
+      have hs := hcur s rfl
+      cases hS : S i with
+      | true =>
+        simp only [runsLoop, hS]
+        obtain ⟨h1, h2⟩ := ih (i + 1) (some s) (by omega) (by intro s' hs'; cases hs'; omega)
+        exact ⟨fun r hr => by simpa using h1 r hr, h2⟩
+      | false =>
+        simp only [runsLoop, hS]
+        obtain ⟨h1, h2⟩ := ih (i + 1) none (by omega) (by intro s' hs'; cases hs')
+        refine ⟨fun r hr => ?_, ?_⟩
+        · rcases List.mem_cons.1 hr with rfl | hr
+          · simp; omega
+          · have := h1 r hr
+            simp only [Option.getD_none, Option.getD_some] at this ⊢
+            omega
+        · refine List.pairwise_cons.2 ⟨fun r hr => ?_, h2⟩
+          have := h1 r hr
+          simp only [Option.getD_none] at this
+          show i - 1 < r.1
+          omega
+
+theorem runs_covered (S : Nat → Bool) (b e t : Nat) :
+    covered (runs S b e) t ↔ b ≤ t ∧ t ≤ e ∧ S t = true := by
+  unfold runs
+  by_cases hbe : b ≤ e + 1
+  · rw [runsLoop_covered S e (e + 1 - b) b none (by omega) (by intro s hs; cases hs)]
+    constructor
+    · rintro (⟨s, hs, _⟩ | h)
+      · cases hs
+      · exact h
+    · exact Or.inr
+  · have : e + 1 - b = 0 := by omega
+    rw [this]
+    simp only [runsLoop]
+    constructor
+    · intro h; exact absurd h (covered_nil t)
+    · rintro ⟨h1, h2, _⟩; omega
+
+theorem runs_struct (S : Nat → Bool) (b e : Nat) :
+    (∀ r ∈ runs S b e, b ≤ r.1 ∧ r.1 ≤ r.2 ∧ r.2 ≤ e) ∧ Dj (runs S b e) := by
+  unfold runs
+  by_cases hbe : b ≤ e + 1
+  · obtain ⟨h1, h2⟩ := runsLoop_struct S e (e + 1 - b) b none (by omega) (by intro s hs; cases hs)
+    refine ⟨fun r hr => ?_, h2⟩
+    have := h1 r hr
+    simp only [Option.getD_none] at this
+    omega
+  · have : e + 1 - b = 0 := by omega
+    rw [this]
+    simp [runsLoop, Dj]
+
+theorem runsAll_eq (S : Nat → Bool) (I : Ivs) :
+    runsAll S I = I.flatMap (fun p => runs S p.1 p.2) := rfl
+
+theorem runsAll_covered (S : Nat → Bool) (I : Ivs) (t : Nat) :
+    covered (runsAll S I) t ↔ covered I t ∧ S t = true := by
+  rw [runsAll_eq, covered_flatMap]
+  constructor
+  · rintro ⟨q, hq, h⟩
+    rw [runs_covered] at h
+    exact ⟨⟨q, hq, h.1, h.2.1⟩, h.2.2⟩
+  · rintro ⟨⟨q, hq, h1, h2⟩, h3⟩
+    exact ⟨q, hq, (runs_covered S q.1 q.2 t).2 ⟨h1, h2, h3⟩⟩
+
+/-! ### well-formed interval lists -/
+
+/-- The interval lists the explainer produces from `[(0,0)]`: non-empty intervals below `n`;
+    every covered position below the begin of an interval is covered by an earlier interval, and
+    every covered position above its end by a later one (so the first begin is the least covered
+    position, the last end the greatest one — hereditarily under run-extraction). -/
+def Good (n : Nat) (I : Ivs) : Prop :=
+  (∀ p ∈ I, p.1 ≤ p.2 ∧ p.2 < n) ∧
+  (∀ L p R, I = L ++ p :: R → ∀ t, covered I t → t < p.1 → covered L t) ∧
+  (∀ L p R, I = L ++ p :: R → ∀ t, covered I t → p.2 < t → covered R t)
+
+theorem good_nil (n : Nat) : Good n [] := by
+  refine ⟨by simp, ?_, ?_⟩ <;> intro L p R h <;> simp at h
+
+theorem good_singleton (n b e : Nat) (h1 : b ≤ e) (h2 : e < n) : Good n [(b, e)] := by
+  refine ⟨by simp; omega, ?_, ?_⟩
+  · intro L p R h t ht hlt
+    cases L with
+    | nil =>
+      simp at h
+      obtain ⟨rfl, _⟩ := h
+      simp [covered] at ht
+      omega
+    | cons x L => simp at h
+  · intro L p R h t ht hlt
+    cases L with
+    | nil =>
+      simp at h
+      obtain ⟨rfl, _⟩ := h
+      simp [covered] at ht
+      omega
+    | cons x L => simp at h
+
+theorem flatMap_eq_append_cons {β γ : Type} (h : β → List γ) :
+    ∀ (I : List β) (L' : List γ) (r : γ) (R' : List γ), I.flatMap h = L' ++ r :: R' →
+      ∃ L p R l l', I = L ++ p :: R ∧ h p = l ++ r :: l' ∧ L' = L.flatMap h ++ l ∧
+        R' = l' ++ R.flatMap h := by
+  intro I
+  induction I with
+  | nil => intro L' r R' h'; simp at h'
+  | cons x xs ih =>
+    intro L' r R' h'
+    rw [List.flatMap_cons, List.append_eq_append_iff] at h'
+    rcases h' with ⟨a', h1, h2⟩ | ⟨c', h1, h2⟩
+    · obtain ⟨L, p, R, l, l', e1, e2, e3, e4⟩ := ih a' r R' h2
+      refine ⟨x :: L, p, R, l, l', by simp [e1], e2, ?_, e4⟩
+      rw [h1, e3]; simp
+    · cases c' with
+      | nil =>
+        simp only [List.nil_append] at h2
+        obtain ⟨L, p, R, l, l', e1, e2, e3, e4⟩ := ih [] r R' h2.symm
+        refine ⟨x :: L, p, R, l, l', by simp [e1], e2, ?_, e4⟩
+        simp only [List.append_nil] at h1
+        rw [List.flatMap_cons, ← h1, List.append_assoc, ← e3]; simp
+      | cons c cs =>
+        simp only [List.cons_append, List.cons.injEq] at h2
+        obtain ⟨rfl, rfl⟩ := h2
+        exact ⟨[], x, xs, L', cs, rfl, h1, by simp, rfl⟩
+
+theorem good_flatMap (n : Nat) (I : Ivs) (h : Nat × Nat → Ivs) (hI : Good n I)
+    (hb : ∀ p ∈ I, ∀ r ∈ h p, r.1 ≤ r.2 ∧ r.2 < n)
+    (hD : ∀ p ∈ I, Dj (h p))
+    (hE : ∀ p ∈ I, ∀ q ∈ I, ∀ r ∈ h p, ∀ t, covered (h q) t → t < r.1 →
+      covered (h p) t ∨ ∃ u, (q.1 ≤ u ∧ u ≤ q.2) ∧ u < p.1 ∧
+        ∀ p'' ∈ I, p''.1 ≤ u → u ≤ p''.2 → covered (h p'') t)
+    (hE' : ∀ p ∈ I, ∀ q ∈ I, ∀ r ∈ h p, ∀ t, covered (h q) t → r.2 < t →
+      covered (h p) t ∨ ∃ u, (q.1 ≤ u ∧ u ≤ q.2) ∧ p.2 < u ∧
+        ∀ p'' ∈ I, p''.1 ≤ u → u ≤ p''.2 → covered (h p'') t) :
+    Good n (I.flatMap h) := by
+  obtain ⟨hI1, hI2, hI3⟩ := hI
+  refine ⟨?_, ?_, ?_⟩
+  · intro r hr
+    obtain ⟨p, hp, hrp⟩ := List.mem_flatMap.1 hr
+    exact hb p hp r hrp
+  · intro L' r R' hdec t ht hlt
+    obtain ⟨L, p, R, l, l', e1, e2, e3, e4⟩ := flatMap_eq_append_cons h I L' r R' hdec
+    have hpI : p ∈ I := by rw [e1]; simp
+    have hrp : r ∈ h p := by rw [e2]; simp
+    obtain ⟨q, hq, htq⟩ := (covered_flatMap h I t).1 ht
+    rw [e3, covered_append]
+    rcases hE p hpI q hq r hrp t htq hlt with hc | ⟨u, hu, hup, hall⟩
+    · rw [e2, covered_append, covered_cons] at hc
+      rcases hc with hc | hc | ⟨s, hs, hs1, hs2⟩
+      · exact Or.inr hc
+      · omega
+      · exfalso
+        have hd := hD p hpI
+        rw [e2] at hd
+        have := (List.pairwise_cons.1 (List.pairwise_append.1 hd).2.1).1 s hs
+        have := (hb p hpI r hrp).1
+        omega
+    · have hcu : covered I u := ⟨q, hq, hu⟩
+      obtain ⟨p'', hp'', h1, h2⟩ := hI2 L p R e1 u hcu hup
+      have hp''I : p'' ∈ I := by rw [e1]; exact List.mem_append.2 (Or.inl hp'')
+      exact Or.inl ((covered_flatMap h L t).2 ⟨p'', hp'', hall p'' hp''I h1 h2⟩)
+  · intro L' r R' hdec t ht hlt
+    obtain ⟨L, p, R, l, l', e1, e2, e3, e4⟩ := flatMap_eq_append_cons h I L' r R' hdec
+    have hpI : p ∈ I := by rw [e1]; simp
+    have hrp : r ∈ h p := by rw [e2]; simp
+    obtain ⟨q, hq, htq⟩ := (covered_flatMap h I t).1 ht
+    rw [e4, covered_append]
+    rcases hE' p hpI q hq r hrp t htq hlt with hc | ⟨u, hu, hup, hall⟩
+    · rw [e2, covered_append, covered_cons] at hc
+      rcases hc with ⟨s, hs, hs1, hs2⟩ | hc | hc
+      · exfalso
+        have hd := hD p hpI
+        rw [e2] at hd
+        have := (List.pairwise_append.1 hd).2.2 s hs r (by simp)
+        have := (hb p hpI r hrp).1
+        omega
+      · omega
+      · exact Or.inl hc
+    · have hcu : covered I u := ⟨q, hq, hu⟩
+      obtain ⟨p'', hp'', h1, h2⟩ := hI3 L p R e1 u hcu hup
+      have hp''I : p'' ∈ I := by rw [e1]; simp [hp'']
+      exact Or.inr ((covered_flatMap h R t).2 ⟨p'', hp'', hall p'' hp''I h1 h2⟩)
+
+theorem covered_singleton (b e t : Nat) : covered [(b, e)] t ↔ b ≤ t ∧ t ≤ e := by
+  simp [covered]
+
+theorem dj_singleton (p : Nat × Nat) : Dj [p] := List.pairwise_singleton _ _
+
+theorem good_runsAll (n : Nat) (S : Nat → Bool) (I : Ivs) (hI : Good n I) :
+    Good n (runsAll S I) := by
+  rw [runsAll_eq]
+  have hI1 := hI.1
+  apply good_flatMap n I _ hI
+  · intro p hp r hr
+    have := (runs_struct S p.1 p.2).1 r hr
+    have := hI1 p hp
+    omega
+  · intro p _
+    exact (runs_struct S p.1 p.2).2
+  · intro p hp q hq r hr t ht hlt
+    rw [runs_covered] at ht
+    have hr' := (runs_struct S p.1 p.2).1 r hr
+    by_cases h : p.1 ≤ t
+    · exact Or.inl ((runs_covered S p.1 p.2 t).2 ⟨h, by omega, ht.2.2⟩)
+    · refine Or.inr ⟨t, ⟨ht.1, ht.2.1⟩, by omega, fun p'' _ h1 h2 => ?_⟩
+      exact (runs_covered S p''.1 p''.2 t).2 ⟨h1, h2, ht.2.2⟩
+  · intro p hp q hq r hr t ht hlt
+    rw [runs_covered] at ht
+    have hr' := (runs_struct S p.1 p.2).1 r hr
+    by_cases h : t ≤ p.2
+    · exact Or.inl ((runs_covered S p.1 p.2 t).2 ⟨by omega, h, ht.2.2⟩)
+    · refine Or.inr ⟨t, ⟨ht.1, ht.2.1⟩, by omega, fun p'' _ h1 h2 => ?_⟩
+      exact (runs_covered S p''.1 p''.2 t).2 ⟨h1, h2, ht.2.2⟩
+
+theorem good_runs (n : Nat) (S : Nat → Bool) (b e : Nat) (h2 : e < n) : Good n (runs S b e) := by
+  by_cases h1 : b ≤ e
+  · have := good_runsAll n S [(b, e)] (good_singleton n b e h1 h2)
+    simpa [runsAll] using this
+  · have : e + 1 - b = 0 := by omega
+    unfold runs
+    rw [this]
+    exact good_nil n
+
+/-- The list passed down by the bounded future operators. -/
+def fwdIvs (n a b : Nat) (I : Ivs) : Ivs :=
+  I.map (fun (x, y) => (min (x + a) (n - 1), min (y + b) (n - 1)))
+/-- The list passed down by the bounded past operators. -/
+def bwdIvs (a b : Nat) (I : Ivs) : Ivs := I.map (fun (x, y) => (x - b, y - a))
+
+theorem fwdIvs_eq (n a b : Nat) (I : Ivs) :
+    fwdIvs n a b I = I.flatMap (fun p => [(min (p.1 + a) (n - 1), min (p.2 + b) (n - 1))]) := by
+  unfold fwdIvs; rw [List.map_eq_flatMap]
+
+theorem bwdIvs_eq (a b : Nat) (I : Ivs) :
+    bwdIvs a b I = I.flatMap (fun p => [(p.1 - b, p.2 - a)]) := by
+  unfold bwdIvs; rw [List.map_eq_flatMap]
+
+theorem good_fwd (n a b : Nat) (hab : a ≤ b) (I : Ivs) (hI : Good n I) :
+    Good n (fwdIvs n a b I) := by
+  rw [fwdIvs_eq]
+  have hI1 := hI.1
+  apply good_flatMap n I _ hI
+  · intro p hp r hr
+    have := hI1 p hp
+    rw [List.mem_singleton] at hr
+    subst hr
+    simp only
+    omega
+  · intro p _; exact dj_singleton _
+  · intro p hp q hq r hr t ht hlt
+    rw [List.mem_singleton] at hr
+    subst hr
+    rw [covered_singleton] at ht
+    simp only at hlt
+    have := hI1 q hq
+    refine Or.inr ⟨max q.1 (t - b), by omega, by omega, fun p'' _ h1 h2 => ?_⟩
+    rw [covered_singleton]
+    omega
+  · intro p hp q hq r hr t ht hlt
+    rw [List.mem_singleton] at hr
+    subst hr
+    rw [covered_singleton] at ht
+    simp only at hlt
+    have := hI1 q hq
+    have := hI1 p hp
+    by_cases hj : q.1 + a ≤ t
+    · refine Or.inr ⟨max q.1 (t - b), by omega, by omega, fun p'' _ h1 h2 => ?_⟩
+      rw [covered_singleton]
+      omega
+    · refine Or.inr ⟨q.1, by omega, by omega, fun p'' _ h1 h2 => ?_⟩
+      rw [covered_singleton]
+      omega
+
+theorem good_bwd (n a b : Nat) (hab : a ≤ b) (I : Ivs) (hI : Good n I) :
+    Good n (bwdIvs a b I) := by
+  rw [bwdIvs_eq]
+  have hI1 := hI.1
+  apply good_flatMap n I _ hI
+  · intro p hp r hr
+    have := hI1 p hp
+    rw [List.mem_singleton] at hr
+    subst hr
+    simp only
+    omega
+  · intro p _; exact dj_singleton _
+  · intro p hp q hq r hr t ht hlt
+    rw [List.mem_singleton] at hr
+    subst hr
+    rw [covered_singleton] at ht
+    simp only at hlt
+    have := hI1 q hq
+    by_cases h0 : t = 0
+    · refine Or.inr ⟨q.1, by omega, by omega, fun p'' _ h1 h2 => ?_⟩
+      rw [covered_singleton]
+      omega
+    · refine Or.inr ⟨max q.1 (t + a), by omega, by omega, fun p'' _ h1 h2 => ?_⟩
+      rw [covered_singleton]
+      omega
+  · intro p hp q hq r hr t ht hlt
+    rw [List.mem_singleton] at hr
+    subst hr
+    rw [covered_singleton] at ht
+    simp only at hlt
+    have := hI1 q hq
+    refine Or.inr ⟨max q.1 (t + a), by omega, by omega, fun p'' _ h1 h2 => ?_⟩
+    rw [covered_singleton]
+    omega
+
+def nextBlock (n : Nat) (p : Nat × Nat) : Ivs :=
+  if p.1 < n - 1 ∧ p.2 < n - 1 then [(p.1 + 1, p.2 + 1)]
+  else if p.1 < n - 1 ∧ n - 1 ≤ p.2 then [(p.1 + 1, p.2)] else []
+
+def prevBlock (p : Nat × Nat) : Ivs :=
+  if p.1 > 0 ∧ p.2 > 0 then [(p.1 - 1, p.2 - 1)]
+  else if p.1 ≤ 0 ∧ p.2 > 0 then [(p.1, p.2 - 1)] else []
+
+theorem explNext_eq (n : Nat) (I : Ivs) : explNext n I = I.flatMap (nextBlock n) := by
+  unfold explNext
+  rw [List.filterMap_eq_flatMap_toList]
+  congr 1
+  funext p
+  unfold nextBlock
+  by_cases h1 : p.1 < n - 1 ∧ p.2 < n - 1
+  · rw [if_pos h1]; exact (congrArg Option.toList (if_pos h1)).trans rfl
+  · by_cases h2 : p.1 < n - 1 ∧ n - 1 ≤ p.2
+    · rw [if_neg h1, if_pos h2]
+      exact (congrArg Option.toList ((if_neg h1).trans (if_pos h2))).trans rfl
+    · rw [if_neg h1, if_neg h2]
+      exact (congrArg Option.toList ((if_neg h1).trans (if_neg h2))).trans rfl
+
+theorem explPrev_eq (I : Ivs) : explPrev I = I.flatMap prevBlock := by
+  unfold explPrev
+  rw [List.filterMap_eq_flatMap_toList]
+  congr 1
+  funext p
+  unfold prevBlock
+  by_cases h1 : p.1 > 0 ∧ p.2 > 0
+  · rw [if_pos h1]; exact (congrArg Option.toList (if_pos h1)).trans rfl
+  · by_cases h2 : p.1 ≤ 0 ∧ p.2 > 0
+    · rw [if_neg h1, if_pos h2]
+      exact (congrArg Option.toList ((if_neg h1).trans (if_pos h2))).trans rfl
+    · rw [if_neg h1, if_neg h2]
+      exact (congrArg Option.toList ((if_neg h1).trans (if_neg h2))).trans rfl
+
+theorem nextBlock_covered (n : Nat) (p : Nat × Nat) (hp : p.1 ≤ p.2 ∧ p.2 < n) (t : Nat) :
+    covered (nextBlock n p) t ↔ 1 ≤ t ∧ t < n ∧ p.1 ≤ t - 1 ∧ t - 1 ≤ p.2 := by
+  obtain ⟨hp1, hp2⟩ := hp
+  unfold nextBlock
+  split_ifs with h1 h2
+  · rw [covered_singleton]; omega
+  · rw [covered_singleton]; omega
+  · constructor
+    · intro h; exact absurd h (covered_nil t)
+    · intro h; omega
+
+theorem prevBlock_covered (p : Nat × Nat) (hp : p.1 ≤ p.2) (t : Nat) :
+    covered (prevBlock p) t ↔ p.1 ≤ t + 1 ∧ t + 1 ≤ p.2 := by
+  have hp' : p.1 ≤ p.2 := hp
+  unfold prevBlock
+  split_ifs with h1 h2
+  · rw [covered_singleton]; omega
+  · rw [covered_singleton]; omega
+  · constructor
+    · intro h; exact absurd h (covered_nil t)
+    · intro h; omega
+
+theorem nextBlock_mem (n : Nat) (p r : Nat × Nat) (hp : p.1 ≤ p.2 ∧ p.2 < n) (hr : r ∈ nextBlock n p) :
+    r.1 = p.1 + 1 ∧ r.1 ≤ r.2 ∧ r.2 < n ∧ (r.2 = p.2 + 1 ∨ r.2 = n - 1) := by
+  unfold nextBlock at hr
+  split_ifs at hr with h1 h2
+  · rw [List.mem_singleton] at hr; subst hr
+    refine ⟨rfl, ?_, ?_, ?_⟩ <;> dsimp only <;> omega
+  · rw [List.mem_singleton] at hr; subst hr
+    refine ⟨rfl, ?_, ?_, ?_⟩ <;> dsimp only <;> omega
+  · cases hr
+
+theorem prevBlock_mem (p r : Nat × Nat) (hp : p.1 ≤ p.2) (hr : r ∈ prevBlock p) :
+    r.1 = p.1 - 1 ∧ r.1 ≤ r.2 ∧ r.2 + 1 = p.2 := by
+  unfold prevBlock at hr
+  split_ifs at hr with h1 h2
+  · rw [List.mem_singleton] at hr; subst hr
+    refine ⟨?_, ?_, ?_⟩ <;> dsimp only <;> omega
+  · rw [List.mem_singleton] at hr; subst hr
+    refine ⟨?_, ?_, ?_⟩ <;> dsimp only <;> omega
+  · cases hr
+
+theorem dj_block_next (n : Nat) (p : Nat × Nat) : Dj (nextBlock n p) := by
+  unfold nextBlock
+  split_ifs <;> simp [Dj]
+
+theorem dj_block_prev (p : Nat × Nat) : Dj (prevBlock p) := by
+  unfold prevBlock
+  split_ifs <;> simp [Dj]
+
+theorem good_explNext (n : Nat) (I : Ivs) (hI : Good n I) : Good n (explNext n I) := by
+  rw [explNext_eq]
+  have hI1 := hI.1
+  apply good_flatMap n I _ hI
+  · intro p hp r hr
+    have := nextBlock_mem n p r (hI1 p hp) hr
+    omega
+  · intro p _; exact dj_block_next n p
+  · intro p hp q hq r hr t ht hlt
+    have hr' := nextBlock_mem n p r (hI1 p hp) hr
+    rw [nextBlock_covered n q (hI1 q hq)] at ht
+    refine Or.inr ⟨t - 1, by omega, by omega, fun p'' hp'' h1 h2 => ?_⟩
+    rw [nextBlock_covered n p'' (hI1 p'' hp'')]
+    omega
+  · intro p hp q hq r hr t ht hlt
+    have hr' := nextBlock_mem n p r (hI1 p hp) hr
+    rw [nextBlock_covered n q (hI1 q hq)] at ht
+    refine Or.inr ⟨t - 1, by omega, by omega, fun p'' hp'' h1 h2 => ?_⟩
+    rw [nextBlock_covered n p'' (hI1 p'' hp'')]
+    omega
+
+theorem good_explPrev (n : Nat) (I : Ivs) (hI : Good n I) : Good n (explPrev I) := by
+  rw [explPrev_eq]
+  have hI1 := hI.1
+  apply good_flatMap n I _ hI
+  · intro p hp r hr
+    have := prevBlock_mem p r (hI1 p hp).1 hr
+    have := hI1 p hp
+    omega
+  · intro p _; exact dj_block_prev p
+  · intro p hp q hq r hr t ht hlt
+    have hr' := prevBlock_mem p r (hI1 p hp).1 hr
+    rw [prevBlock_covered q (hI1 q hq).1] at ht
+    refine Or.inr ⟨t + 1, by omega, by omega, fun p'' hp'' h1 h2 => ?_⟩
+    rw [prevBlock_covered p'' (hI1 p'' hp'').1]
+    omega
+  · intro p hp q hq r hr t ht hlt
+    have hr' := prevBlock_mem p r (hI1 p hp).1 hr
+    rw [prevBlock_covered q (hI1 q hq).1] at ht
+    refine Or.inr ⟨t + 1, by omega, by omega, fun p'' hp'' h1 h2 => ?_⟩
+    rw [prevBlock_covered p'' (hI1 p'' hp'').1]
+    omega
+
+/-! coverage of the child lists (needed positions are covered) -/
+
+theorem explPrev_covered (n : Nat) (I : Ivs) (hI : Good n I) (t : Nat) (ht : covered I (t + 1)) :
+    covered (explPrev I) t := by
+  rw [explPrev_eq, covered_flatMap]
+  obtain ⟨p, hp, h⟩ := ht
+  exact ⟨p, hp, (prevBlock_covered p (hI.1 p hp).1 t).2 h⟩
+
+theorem explNext_covered (n : Nat) (I : Ivs) (hI : Good n I) (t : Nat) (ht : covered I t)
+    (htn : t + 1 < n) : covered (explNext n I) (t + 1) := by
+  rw [explNext_eq, covered_flatMap]
+  obtain ⟨p, hp, h⟩ := ht
+  exact ⟨p, hp, (nextBlock_covered n p (hI.1 p hp) (t + 1)).2 (by omega)⟩
+
+theorem fwd_covered (n a b : Nat) (I : Ivs) (t w : Nat) (ht : covered I t)
+    (h1 : t + a ≤ w) (h2 : w < min (t + b + 1) n) : covered (fwdIvs n a b I) w := by
+  obtain ⟨p, hp, h⟩ := ht
+  refine ⟨(min (p.1 + a) (n - 1), min (p.2 + b) (n - 1)), ?_, ?_⟩
+  · unfold fwdIvs
+    exact List.mem_map.2 ⟨p, hp, rfl⟩
+  · simp only; omega
+
+theorem bwd_covered (a b : Nat) (I : Ivs) (t w : Nat) (ht : covered I t)
+    (h1 : t - b ≤ w) (h2 : w < t + 1 - a) : covered (bwdIvs a b I) w := by
+  obtain ⟨p, hp, h⟩ := ht
+  refine ⟨(p.1 - b, p.2 - a), ?_, ?_⟩
+  · unfold bwdIvs
+    exact List.mem_map.2 ⟨p, hp, rfl⟩
+  · simp only; omega
+
+theorem good_lt (n : Nat) (I : Ivs) (hI : Good n I) (t : Nat) (ht : covered I t) : t < n := by
+  obtain ⟨p, hp, h⟩ := ht
+  have := hI.1 p hp
+  omega
+
+theorem good_first (n : Nat) (I : Ivs) (hI : Good n I) (t : Nat) (ht : covered I t) :
+    ∃ b, firstBegin I = some b ∧ b ≤ t ∧ b ≤ n - 1 := by
+  cases I with
+  | nil => exact absurd ht (covered_nil t)
+  | cons p R =>
+    refine ⟨p.1, rfl, ?_, ?_⟩
+    · by_contra hlt
+      exact covered_nil t (hI.2.1 [] p R rfl t ht (by omega))
+    · have := hI.1 p (by simp); omega
+
+theorem good_last (n : Nat) (I : Ivs) (hI : Good n I) (t : Nat) (ht : covered I t) :
+    ∃ e, lastEnd I = some e ∧ t ≤ e ∧ e < n := by
+  have hne : I ≠ [] := by
+    rintro rfl; exact covered_nil t ht
+  obtain ⟨L, p, rfl⟩ : ∃ L p, I = L ++ [p] := ⟨I.dropLast, I.getLast hne, (List.dropLast_append_getLast hne).symm⟩
+  refine ⟨p.2, by simp [lastEnd], ?_, ?_⟩
+  · by_contra hlt
+    exact covered_nil t (hI.2.2 L p [] rfl t ht (by omega))
+  · have := hI.1 p (by simp); omega
+
+/-! ### order facts about polarities -/
+
+theorem isUnsat_iff (v : α) : isUnsat v = true ↔ v < Val.zero := LawfulVal.lt_iff _ _
+
+theorem isUnsat_false_iff (v : α) : isUnsat v = false ↔ Val.zero ≤ v := by
+  rw [← not_lt, ← isUnsat_iff, Bool.not_eq_true]
+
+theorem isSat_iff (v : α) : isSat v = true ↔ Val.zero ≤ v := by
+  unfold isSat
+  rw [Bool.not_eq_true', ← isUnsat_false_iff]; rfl
+
+theorem isSat_false_iff (v : α) : isSat v = false ↔ v < Val.zero := by
+  unfold isSat
+  rw [Bool.not_eq_false', LawfulVal.lt_iff]
+
+theorem neg_lt_zero_iff (hz : Val.neg (Val.zero : α) = Val.zero) (v : α) :
+    Val.neg v < Val.zero ↔ Val.zero < v := by
+  rw [← not_le, ← not_le, not_iff_not]
+  conv_lhs => rw [← hz]
+  exact neg_le_neg_iff _ _
+
+theorem zero_lt_neg_iff (hz : Val.neg (Val.zero : α) = Val.zero) (v : α) :
+    Val.zero < Val.neg v ↔ v < Val.zero := by
+  rw [← not_le, ← not_le, not_iff_not]
+  conv_lhs => rw [← hz]
+  exact neg_le_neg_iff _ _
+
+/-- Monotone preservation: `v'` is "at least as satisfied" as a strictly satisfied `v`
+    (`flag = true`), resp. "at least as violated" as a violated `v` (`flag = false`). -/
+def pres (flag : Bool) (v v' : α) : Prop :=
+  if flag then (Val.zero < v → v ≤ v') else (v < Val.zero → v' ≤ v)
+
+theorem pres_of_eq (flag : Bool) {v v' : α} (h : v' = v) : pres flag v v' := by
+  subst h; unfold pres; split <;> intro _ <;> exact le_rfl
+
+theorem pres_true_of_not_sat {v v' : α} (h : isSat v = false) : pres true v v' := by
+  rw [isSat_false_iff] at h
+  intro h'; exact absurd h (not_lt.2 (le_of_lt h'))
+
+theorem pres_false_of_not_unsat {v v' : α} (h : isUnsat v = false) : pres false v v' := by
+  rw [isUnsat_false_iff] at h
+  intro h'; exact absurd h' (not_lt.2 h)
+
+theorem pres_neg (hz : Val.neg (Val.zero : α) = Val.zero) (flag : Bool) {v v' : α}
+    (h : pres (!flag) v v') : pres flag (Val.neg v) (Val.neg v') := by
+  cases flag with
+  | false =>
+    intro h'
+    exact (neg_le_neg_iff _ _).2 (h ((neg_lt_zero_iff hz v).1 h'))
+  | true =>
+    intro h'
+    exact (neg_le_neg_iff _ _).2 (h ((zero_lt_neg_iff hz v).1 h'))
+
+theorem pres_min (flag : Bool) {a a' b b' : α} (ha : pres flag a a') (hb : pres flag b b') :
+    pres flag (min a b) (min a' b') := by
+  cases flag with
+  | true =>
+    intro h
+    rw [lt_min_iff] at h
+    exact min_le_min (ha h.1) (hb h.2)
+  | false =>
+    intro h
+    rcases le_total a b with hab | hab
+    · rw [min_eq_left hab] at h ⊢
+      exact le_trans (min_le_left _ _) (ha h)
+    · rw [min_eq_right hab] at h ⊢
+      exact le_trans (min_le_right _ _) (hb h)
+
+theorem pres_max (flag : Bool) {a a' b b' : α} (ha : pres flag a a') (hb : pres flag b b') :
+    pres flag (max a b) (max a' b') := by
+  cases flag with
+  | false =>
+    intro h
+    rw [max_lt_iff] at h
+    exact max_le_max (ha h.1) (hb h.2)
+  | true =>
+    intro h
+    rcases le_total a b with hab | hab
+    · rw [max_eq_right hab] at h ⊢
+      exact le_trans (hb h) (le_max_right _ _)
+    · rw [max_eq_left hab] at h ⊢
+      exact le_trans (ha h) (le_max_left _ _)
+
+theorem minOver_le (lo hi : Nat) (f : Nat → α) (w : Nat) (h1 : lo ≤ w) (h2 : w < hi) :
+    minOver lo hi f ≤ f w := (le_minOver_iff lo hi f _).1 le_rfl w h1 h2
+
+theorem le_maxOver (lo hi : Nat) (f : Nat → α) (w : Nat) (h1 : lo ≤ w) (h2 : w < hi) :
+    f w ≤ maxOver lo hi f := (maxOver_le_iff lo hi f _).1 le_rfl w h1 h2
+
+theorem pres_minOver (flag : Bool) (lo hi : Nat) (f f' : Nat → α)
+    (h : ∀ w, lo ≤ w → w < hi → pres flag (f w) (f' w)) :
+    pres flag (minOver lo hi f) (minOver lo hi f') := by
+  cases flag with
+  | true =>
+    intro h0
+    rw [le_minOver_iff]
+    intro w h1 h2
+    have hw := minOver_le lo hi f w h1 h2
+    exact le_trans hw (h w h1 h2 (lt_of_lt_of_le h0 hw))
+  | false =>
+    intro h0
+    have hex : ∃ w, lo ≤ w ∧ w < hi ∧ f w < Val.zero := by
+      by_contra hne
+      refine absurd h0 (not_lt.2 ((le_minOver_iff lo hi f _).2 fun w h1 h2 => ?_))
+      by_contra hlt
+      exact hne ⟨w, h1, h2, not_le.1 hlt⟩
+    obtain ⟨w0, h01, h02, h03⟩ := hex
+    rw [le_minOver_iff]
+    intro w h1 h2
+    by_cases hw : f w < Val.zero
+    · exact le_trans (minOver_le lo hi f' w h1 h2) (h w h1 h2 hw)
+    · refine le_trans (minOver_le lo hi f' w0 h01 h02) (le_trans (h w0 h01 h02 h03) ?_)
+      exact le_trans (le_of_lt h03) (not_lt.1 hw)
+
+theorem pres_maxOver (flag : Bool) (lo hi : Nat) (f f' : Nat → α)
+    (h : ∀ w, lo ≤ w → w < hi → pres flag (f w) (f' w)) :
+    pres flag (maxOver lo hi f) (maxOver lo hi f') := by
+  cases flag with
+  | false =>
+    intro h0
+    rw [maxOver_le_iff]
+    intro w h1 h2
+    have hw := le_maxOver lo hi f w h1 h2
+    exact le_trans (h w h1 h2 (lt_of_le_of_lt hw h0)) hw
+  | true =>
+    intro h0
+    have hex : ∃ w, lo ≤ w ∧ w < hi ∧ Val.zero < f w := by
+      by_contra hne
+      refine absurd h0 (not_lt.2 ((maxOver_le_iff lo hi f _).2 fun w h1 h2 => ?_))
+      by_contra hlt
+      exact hne ⟨w, h1, h2, not_le.1 hlt⟩
+    obtain ⟨w0, h01, h02, h03⟩ := hex
+    rw [maxOver_le_iff]
+    intro w h1 h2
+    by_cases hw : Val.zero < f w
+    · exact le_trans (h w h1 h2 hw) (le_maxOver lo hi f' w h1 h2)
+    · refine le_trans ?_ (le_trans (h w0 h01 h02 h03) (le_maxOver lo hi f' w0 h01 h02))
+      exact le_trans (not_lt.1 hw) (le_of_lt h03)
+
+/-! ### the explainer: basic facts -/
+
+theorem both_ok {x y : Except Unit (List (String × Ivs))} {ex : List (String × Ivs)}
+    (h : (do let a ← x; let b ← y; pure (a ++ b)) = .ok ex) :
+    ∃ a b, x = .ok a ∧ y = .ok b ∧ ex = a ++ b := by
+  cases x with
+  | error e => cases h
+  | ok a =>
+    cases y with
+    | error e => cases h
+    | ok b =>
+      refine ⟨a, b, rfl, rfl, ?_⟩
+      cases h; rfl
+
+theorem reported_append (a b : List (String × Ivs)) (x : String) (t : Nat) :
+    reported (a ++ b) x t = (reported a x t || reported b x t) := by
+  unfold reported; rw [List.any_append]
+
+theorem reported_var (x : String) (I : Ivs) (t : Nat) (h : covered I t) :
+    reported [(x, I)] x t = true := by
+  obtain ⟨p, hp, h1, h2⟩ := h
+  unfold reported
+  simp only [List.any_cons, List.any_nil, Bool.or_false, beq_self_eq_true, Bool.true_and,
+    List.any_eq_true]
+  exact ⟨p, hp, by simp [h1, h2]⟩
+
+/-- Point-wise operators whose explanation passes the interval list unchanged (whatever the
+    polarity) or shifts it by one sample: all positions the value depends on are reported. -/
+def F.explExact : F α → Bool
+  | .var _ => true
+  | .const _ => true
+  | .un _ φ => φ.explExact
+  | .bin op φ ψ =>
+      (match op with | .and | .or | .implies => false | _ => true) && φ.explExact && ψ.explExact
+  | .tmp1 op φ => (match op with | .prev | .sprev | .next | .snext => true | _ => false) && φ.explExact
+  | _ => false
+
+omit [Val α] [LawfulVal α] in
+theorem explTerm_explExact : ∀ (φ : F α), φ.explTerm = true → φ.explExact = true
+  | .var _, _ => rfl
+  | .const _, _ => rfl
+  | .un op φ, h => by
+    simp only [F.explTerm, Bool.and_eq_true] at h
+    simp only [F.explExact]
+    exact explTerm_explExact φ h.2
+  | .bin op φ ψ, h => by
+    simp only [F.explTerm, Bool.and_eq_true] at h
+    simp only [F.explExact, Bool.and_eq_true]
+    refine ⟨⟨?_, explTerm_explExact φ h.1.2⟩, explTerm_explExact ψ h.2⟩
+    cases op <;> first | rfl | exact absurd h.1.1 (by simp)
+  | .tmp1 _ _, h => by simp [F.explTerm] at h
+  | .tmp2 _ _ _, h => by simp [F.explTerm] at h
+  | .tb1 _ _ _ _, h => by simp [F.explTerm] at h
+  | .tb2 _ _ _ _ _, h => by simp [F.explTerm] at h
+
+omit [LawfulVal α] in
+theorem explain_bin_exact (σ : String → Nat → α) (n : Nat) (op : Bin) (φ ψ : F α) (I : Ivs)
+    (flag : Bool) (hop : (match op with | .and | .or | .implies => false | _ => true) = true) :
+    explain σ n (.bin op φ ψ) I flag =
+      (do let a ← explain σ n φ I flag; let b ← explain σ n ψ I flag; pure (a ++ b)) := by
+  cases op <;> cases flag <;> first | rfl | cases hop
+
+omit [LawfulVal α] in
+theorem exact_rho (σ σ' : String → Nat → α) (n : Nat) :
+    ∀ (φ : F α), φ.explExact = true → ∀ (I : Ivs) (flag : Bool) (ex : List (String × Ivs)),
+      explain σ n φ I flag = .ok ex → Good n I →
+      (∀ x t, reported ex x t = true → t < n → σ' x t = σ x t) →
+      ∀ t, covered I t → rho σ' n φ t = rho σ n φ t
+  | .var x, _, I, flag, ex, hex, hI, hag, t, ht => by
+    simp only [explain, Except.ok.injEq] at hex
+    subst hex
+    simp only [rho]
+    exact hag x t (reported_var x I t ht) (good_lt n I hI t ht)
+  | .const c, _, I, flag, ex, hex, hI, hag, t, ht => rfl
+  | .un op φ, hx, I, flag, ex, hex, hI, hag, t, ht => by
+    simp only [F.explExact] at hx
+    have key : ∃ fl, explain σ n φ I fl = .ok ex := by
+      cases op <;> first | exact ⟨flag, hex⟩ | exact ⟨!flag, hex⟩
+    obtain ⟨fl, hex'⟩ := key
+    simp only [rho]
+    rw [exact_rho σ σ' n φ hx I fl ex hex' hI hag t ht]
+  | .bin op φ ψ, hx, I, flag, ex, hex, hI, hag, t, ht => by
+    simp only [F.explExact, Bool.and_eq_true] at hx
+    rw [explain_bin_exact σ n op φ ψ I flag hx.1.1] at hex
+    obtain ⟨a, b, h1, h2, rfl⟩ := both_ok hex
+    simp only [rho]
+    rw [exact_rho σ σ' n φ hx.1.2 I flag a h1 hI
+          (fun x t h => hag x t (by rw [reported_append, h]; rfl)) t ht,
+        exact_rho σ σ' n ψ hx.2 I flag b h2 hI
+          (fun x t h => hag x t (by rw [reported_append, h]; simp)) t ht]
+  | .tmp1 op φ, hx, I, flag, ex, hex, hI, hag, t, ht => by
+    simp only [F.explExact, Bool.and_eq_true] at hx
+    obtain ⟨hop, hx⟩ := hx
+    have ih := exact_rho σ σ' n φ hx
+    cases op <;> try (simp at hop; done)
+    · -- prev
+      have hex' : explain σ n φ (explPrev I) flag = .ok ex := by cases flag <;> exact hex
+      simp only [rho]
+      by_cases h0 : t = 0
+      · simp [h0]
+      · rw [if_neg h0, if_neg h0]
+        exact ih _ flag ex hex' (good_explPrev n I hI) hag (t - 1)
+          (explPrev_covered n I hI (t - 1) (by rwa [Nat.sub_add_cancel (by omega)]))
+    · -- sprev
+      have hex' : explain σ n φ (explPrev I) flag = .ok ex := by cases flag <;> exact hex
+      simp only [rho]
+      by_cases h0 : t = 0
+      · simp [h0]
+      · rw [if_neg h0, if_neg h0]
+        exact ih _ flag ex hex' (good_explPrev n I hI) hag (t - 1)
+          (explPrev_covered n I hI (t - 1) (by rwa [Nat.sub_add_cancel (by omega)]))
+    · -- next
+      have hex' : explain σ n φ (explNext n I) flag = .ok ex := by cases flag <;> exact hex
+      simp only [rho]
+      by_cases h0 : t + 1 < n
+      · rw [if_pos h0, if_pos h0]
+        exact ih _ flag ex hex' (good_explNext n I hI) hag (t + 1) (explNext_covered n I hI t ht h0)
+      · rw [if_neg h0, if_neg h0]
+    · -- snext
+      have hex' : explain σ n φ (explNext n I) flag = .ok ex := by cases flag <;> exact hex
+      simp only [rho]
+      by_cases h0 : t + 1 < n
+      · rw [if_pos h0, if_pos h0]
+        exact ih _ flag ex hex' (good_explNext n I hI) hag (t + 1) (explNext_covered n I hI t ht h0)
+      · rw [if_neg h0, if_neg h0]
+  | .tmp2 _ _ _, hx, _, _, _, _, _, _, _, _ => by simp [F.explExact] at hx
+  | .tb1 _ _ _ _, hx, _, _, _, _, _, _, _, _ => by simp [F.explExact] at hx
+  | .tb2 _ _ _ _ _, hx, _, _, _, _, _, _, _, _ => by simp [F.explExact] at hx
+
+theorem pres_sel_false (f f' : Nat → α) (K : Ivs)
+    (h : ∀ w, covered (runsAll (fun i => isUnsat (f i)) K) w → pres false (f w) (f' w)) :
+    ∀ w, covered K w → pres false (f w) (f' w) := by
+  intro w hw
+  cases hS : isUnsat (f w) with
+  | false => exact pres_false_of_not_unsat hS
+  | true => exact h w ((runsAll_covered _ K w).2 ⟨hw, hS⟩)
+
+theorem pres_sel_true (f f' : Nat → α) (K : Ivs)
+    (h : ∀ w, covered (runsAll (fun i => isSat (f i)) K) w → pres true (f w) (f' w)) :
+    ∀ w, covered K w → pres true (f w) (f' w) := by
+  intro w hw
+  cases hS : isSat (f w) with
+  | false => exact pres_true_of_not_sat hS
+  | true => exact h w ((runsAll_covered _ K w).2 ⟨hw, hS⟩)
+
+theorem pres_selr_false (f f' : Nat → α) (b e : Nat)
+    (h : ∀ w, covered (runs (fun i => isUnsat (f i)) b e) w → pres false (f w) (f' w)) :
+    ∀ w, b ≤ w → w ≤ e → pres false (f w) (f' w) := by
+  intro w h1 h2
+  cases hS : isUnsat (f w) with
+  | false => exact pres_false_of_not_unsat hS
+  | true => exact h w ((runs_covered _ b e w).2 ⟨h1, h2, hS⟩)
+
+theorem pres_selr_true (f f' : Nat → α) (b e : Nat)
+    (h : ∀ w, covered (runs (fun i => isSat (f i)) b e) w → pres true (f w) (f' w)) :
+    ∀ w, b ≤ w → w ≤ e → pres true (f w) (f' w) := by
+  intro w h1 h2
+  cases hS : isSat (f w) with
+  | false => exact pres_true_of_not_sat hS
+  | true => exact h w ((runs_covered _ b e w).2 ⟨h1, h2, hS⟩)
+
+omit [Val α] [LawfulVal α] in
+theorem hag_left {σ σ' : String → Nat → α} {n : Nat} {a b : List (String × Ivs)}
+    (hag : ∀ x t, reported (a ++ b) x t = true → t < n → σ' x t = σ x t) :
+    ∀ x t, reported a x t = true → t < n → σ' x t = σ x t :=
+  fun x t h => hag x t (by rw [reported_append, h]; rfl)
+
+omit [Val α] [LawfulVal α] in
+theorem hag_right {σ σ' : String → Nat → α} {n : Nat} {a b : List (String × Ivs)}
+    (hag : ∀ x t, reported (a ++ b) x t = true → t < n → σ' x t = σ x t) :
+    ∀ x t, reported b x t = true → t < n → σ' x t = σ x t :=
+  fun x t h => hag x t (by rw [reported_append, h]; simp)
+
+/-- The monotone invariant of the explainer. -/
+theorem C20_mono (hz : Val.neg (Val.zero : α) = Val.zero) (σ σ' : String → Nat → α) (n : Nat) :
+    ∀ (φ : F α), φ.explFrag = true →
+      ∀ (I : Ivs) (flag : Bool) (ex : List (String × Ivs)),
+      explain σ n φ I flag = .ok ex → Good n I →
+      (∀ x t, reported ex x t = true → t < n → σ' x t = σ x t) →
+      ∀ t, covered I t → pres flag (rho σ n φ t) (rho σ' n φ t)
+  | .var _, hf, _, _, _, _, _, _, _, _ => by simp [F.explFrag] at hf
+  | .const _, hf, _, _, _, _, _, _, _, _ => by simp [F.explFrag] at hf
+  | .un op φ, hf, I, flag, ex, hex, hI, hag, t, ht => by
+    simp only [F.explFrag, Bool.and_eq_true] at hf
+    cases op <;> try (simp at hf; done)
+    have hex' : explain σ n φ I (!flag) = .ok ex := hex
+    exact pres_neg hz flag (C20_mono hz σ σ' n φ hf.2 I (!flag) ex hex' hI hag t ht)
+  | .bin op φ ψ, hf, I, flag, ex, hex, hI, hag, t, ht => by
+    cases op with
+    | pred c =>
+      simp only [F.explFrag, Bool.and_eq_true] at hf
+      have hx : (F.bin (.pred c) φ ψ).explExact = true := by
+        simp only [F.explExact, Bool.and_eq_true]
+        exact ⟨⟨trivial, explTerm_explExact φ hf.1⟩, explTerm_explExact ψ hf.2⟩
+      exact pres_of_eq flag (exact_rho σ σ' n _ hx I flag ex hex hI hag t ht)
+    | and =>
+      simp only [F.explFrag, Bool.and_eq_true] at hf
+      have ih1 := C20_mono hz σ σ' n φ hf.1
+      have ih2 := C20_mono hz σ σ' n ψ hf.2
+      show pres flag (pmin (rho σ n φ t) (rho σ n ψ t)) (pmin (rho σ' n φ t) (rho σ' n ψ t))
+      rw [pmin_eq, pmin_eq]
+      cases flag with
+      | true =>
+        obtain ⟨a, b, h1, h2, rfl⟩ := both_ok hex
+        exact pres_min true (ih1 I true a h1 hI (hag_left hag) t ht)
+          (ih2 I true b h2 hI (hag_right hag) t ht)
+      | false =>
+        obtain ⟨a, b, h1, h2, rfl⟩ := both_ok hex
+        exact pres_min false
+          (pres_sel_false (rho σ n φ) (rho σ' n φ) I
+            (ih1 _ false a h1 (good_runsAll n _ I hI) (hag_left hag)) t ht)
+          (pres_sel_false (rho σ n ψ) (rho σ' n ψ) I
+            (ih2 _ false b h2 (good_runsAll n _ I hI) (hag_right hag)) t ht)
+    | or =>
+      simp only [F.explFrag, Bool.and_eq_true] at hf
+      have ih1 := C20_mono hz σ σ' n φ hf.1
+      have ih2 := C20_mono hz σ σ' n ψ hf.2
+      show pres flag (pmax (rho σ n φ t) (rho σ n ψ t)) (pmax (rho σ' n φ t) (rho σ' n ψ t))
+      rw [pmax_eq, pmax_eq]
+      cases flag with
+      | false =>
+        obtain ⟨a, b, h1, h2, rfl⟩ := both_ok hex
+        exact pres_max false (ih1 I false a h1 hI (hag_left hag) t ht)
+          (ih2 I false b h2 hI (hag_right hag) t ht)
+      | true =>
+        obtain ⟨a, b, h1, h2, rfl⟩ := both_ok hex
+        exact pres_max true
+          (pres_sel_true (rho σ n φ) (rho σ' n φ) I
+            (ih1 _ true a h1 (good_runsAll n _ I hI) (hag_left hag)) t ht)
+          (pres_sel_true (rho σ n ψ) (rho σ' n ψ) I
+            (ih2 _ true b h2 (good_runsAll n _ I hI) (hag_right hag)) t ht)
+    | implies =>
+      simp only [F.explFrag, Bool.and_eq_true] at hf
+      have ih1 := C20_mono hz σ σ' n φ hf.1
+      have ih2 := C20_mono hz σ σ' n ψ hf.2
+      show pres flag (pmax (Val.neg (rho σ n φ t)) (rho σ n ψ t))
+        (pmax (Val.neg (rho σ' n φ t)) (rho σ' n ψ t))
+      rw [pmax_eq, pmax_eq]
+      cases flag with
+      | false =>
+        obtain ⟨a, b, h1, h2, rfl⟩ := both_ok hex
+        exact pres_max false (pres_neg hz false (ih1 I true a h1 hI (hag_left hag) t ht))
+          (ih2 I false b h2 hI (hag_right hag) t ht)
+      | true =>
+        obtain ⟨a, b, h1, h2, rfl⟩ := both_ok hex
+        exact pres_max true
+          (pres_neg hz true (pres_sel_false (rho σ n φ) (rho σ' n φ) I
+            (ih1 _ false a h1 (good_runsAll n _ I hI) (hag_left hag)) t ht))
+          (pres_sel_true (rho σ n ψ) (rho σ' n ψ) I
+            (ih2 _ true b h2 (good_runsAll n _ I hI) (hag_right hag)) t ht)
+    | _ => simp [F.explFrag] at hf
+  | .tmp1 op φ, hf, I, flag, ex, hex, hI, hag, t, ht => by
+    simp only [F.explFrag, Bool.and_eq_true] at hf
+    have ih := C20_mono hz σ σ' n φ hf.2
+    have htn := good_lt n I hI t ht
+    cases op with
+    | rise => simp at hf
+    | fall => simp at hf
+    | prev =>
+      have hex' : explain σ n φ (explPrev I) flag = .ok ex := by cases flag <;> exact hex
+      show pres flag (if t = 0 then pinf else rho σ n φ (t - 1))
+        (if t = 0 then pinf else rho σ' n φ (t - 1))
+      by_cases h0 : t = 0
+      · rw [if_pos h0, if_pos h0]; exact pres_of_eq flag rfl
+      · rw [if_neg h0, if_neg h0]
+        exact ih _ flag ex hex' (good_explPrev n I hI) hag (t - 1)
+          (explPrev_covered n I hI (t - 1) (by rwa [Nat.sub_add_cancel (by omega)]))
+    | sprev =>
+      have hex' : explain σ n φ (explPrev I) flag = .ok ex := by cases flag <;> exact hex
+      show pres flag (if t = 0 then ninf else rho σ n φ (t - 1))
+        (if t = 0 then ninf else rho σ' n φ (t - 1))
+      by_cases h0 : t = 0
+      · rw [if_pos h0, if_pos h0]; exact pres_of_eq flag rfl
+      · rw [if_neg h0, if_neg h0]
+        exact ih _ flag ex hex' (good_explPrev n I hI) hag (t - 1)
+          (explPrev_covered n I hI (t - 1) (by rwa [Nat.sub_add_cancel (by omega)]))
+    | next =>
+      have hex' : explain σ n φ (explNext n I) flag = .ok ex := by cases flag <;> exact hex
+      show pres flag (if t + 1 < n then rho σ n φ (t + 1) else pinf)
+        (if t + 1 < n then rho σ' n φ (t + 1) else pinf)
+      by_cases h0 : t + 1 < n
+      · rw [if_pos h0, if_pos h0]
+        exact ih _ flag ex hex' (good_explNext n I hI) hag (t + 1) (explNext_covered n I hI t ht h0)
+      · rw [if_neg h0, if_neg h0]; exact pres_of_eq flag rfl
+    | snext =>
+      have hex' : explain σ n φ (explNext n I) flag = .ok ex := by cases flag <;> exact hex
+      show pres flag (if t + 1 < n then rho σ n φ (t + 1) else ninf)
+        (if t + 1 < n then rho σ' n φ (t + 1) else ninf)
+      by_cases h0 : t + 1 < n
+      · rw [if_pos h0, if_pos h0]
+        exact ih _ flag ex hex' (good_explNext n I hI) hag (t + 1) (explNext_covered n I hI t ht h0)
+      · rw [if_neg h0, if_neg h0]; exact pres_of_eq flag rfl
+    | alw =>
+      obtain ⟨b, hb, hbt, hbn⟩ := good_first n I hI t ht
+      show pres flag (minOver t n (rho σ n φ)) (minOver t n (rho σ' n φ))
+      apply pres_minOver
+      intro w h1 h2
+      cases flag with
+      | true =>
+        have hex' : explain σ n φ (match firstBegin I with | some b => [(b, n - 1)] | none => []) true
+            = .ok ex := hex
+        rw [hb] at hex'
+        exact ih _ true ex hex' (good_singleton n b (n - 1) hbn (by omega)) hag w
+          ((covered_singleton _ _ w).2 ⟨by omega, by omega⟩)
+      | false =>
+        have hex' : explain σ n φ (match firstBegin I with
+            | some b => runs (fun i => isUnsat (rho σ n φ i)) b (n - 1) | none => []) false
+            = .ok ex := hex
+        rw [hb] at hex'
+        exact pres_selr_false (rho σ n φ) (rho σ' n φ) b (n - 1)
+          (ih _ false ex hex' (good_runs n _ b (n - 1) (by omega)) hag) w (by omega) (by omega)
+    | ev =>
+      obtain ⟨b, hb, hbt, hbn⟩ := good_first n I hI t ht
+      show pres flag (maxOver t n (rho σ n φ)) (maxOver t n (rho σ' n φ))
+      apply pres_maxOver
+      intro w h1 h2
+      cases flag with
+      | false =>
+        have hex' : explain σ n φ (match firstBegin I with | some b => [(b, n - 1)] | none => []) false
+            = .ok ex := hex
+        rw [hb] at hex'
+        exact ih _ false ex hex' (good_singleton n b (n - 1) hbn (by omega)) hag w
+          ((covered_singleton _ _ w).2 ⟨by omega, by omega⟩)
+      | true =>
+        have hex' : explain σ n φ (match firstBegin I with
+            | some b => runs (fun i => isSat (rho σ n φ i)) b (n - 1) | none => []) true
+            = .ok ex := hex
+        rw [hb] at hex'
+        exact pres_selr_true (rho σ n φ) (rho σ' n φ) b (n - 1)
+          (ih _ true ex hex' (good_runs n _ b (n - 1) (by omega)) hag) w (by omega) (by omega)
+    | hist =>
+      obtain ⟨e, he, hte, hen⟩ := good_last n I hI t ht
+      show pres flag (minOver 0 (t + 1) (rho σ n φ)) (minOver 0 (t + 1) (rho σ' n φ))
+      apply pres_minOver
+      intro w h1 h2
+      cases flag with
+      | true =>
+        have hex' : explain σ n φ (match lastEnd I with | some e => [(0, e)] | none => []) true
+            = .ok ex := hex
+        rw [he] at hex'
+        exact ih _ true ex hex' (good_singleton n 0 e (by omega) hen) hag w
+          ((covered_singleton _ _ w).2 ⟨by omega, by omega⟩)
+      | false =>
+        have hex' : explain σ n φ (match lastEnd I with
+            | some e => runs (fun i => isUnsat (rho σ n φ i)) 0 e | none => []) false
+            = .ok ex := hex
+        rw [he] at hex'
+        exact pres_selr_false (rho σ n φ) (rho σ' n φ) 0 e
+          (ih _ false ex hex' (good_runs n _ 0 e hen) hag) w (by omega) (by omega)
+    | once =>
+      obtain ⟨e, he, hte, hen⟩ := good_last n I hI t ht
+      show pres flag (maxOver 0 (t + 1) (rho σ n φ)) (maxOver 0 (t + 1) (rho σ' n φ))
+      apply pres_maxOver
+      intro w h1 h2
+      cases flag with
+      | false =>
+        have hex' : explain σ n φ (match lastEnd I with | some e => [(0, e)] | none => []) false
+            = .ok ex := hex
+        rw [he] at hex'
+        exact ih _ false ex hex' (good_singleton n 0 e (by omega) hen) hag w
+          ((covered_singleton _ _ w).2 ⟨by omega, by omega⟩)
+      | true =>
+        have hex' : explain σ n φ (match lastEnd I with
+            | some e => runs (fun i => isSat (rho σ n φ i)) 0 e | none => []) true
+            = .ok ex := hex
+        rw [he] at hex'
+        exact pres_selr_true (rho σ n φ) (rho σ' n φ) 0 e
+          (ih _ true ex hex' (good_runs n _ 0 e hen) hag) w (by omega) (by omega)
+  | .tmp2 _ _ _, hf, _, _, _, _, _, _, _, _ => by simp [F.explFrag] at hf
+  | .tb1 op a b φ, hf, I, flag, ex, hex, hI, hag, t, ht => by
+    simp only [F.explFrag, Bool.and_eq_true, decide_eq_true_eq] at hf
+    have ih := C20_mono hz σ σ' n φ hf.2
+    have hab := hf.1
+    cases op with
+    | alw =>
+      show pres flag (minOver (t + a) (min (t + b + 1) n) (rho σ n φ))
+        (minOver (t + a) (min (t + b + 1) n) (rho σ' n φ))
+      apply pres_minOver
+      intro w h1 h2
+      have hw := fwd_covered n a b I t w ht h1 h2
+      cases flag with
+      | true =>
+        have hex' : explain σ n φ (fwdIvs n a b I) true = .ok ex := hex
+        exact ih _ true ex hex' (good_fwd n a b hab I hI) hag w hw
+      | false =>
+        have hex' : explain σ n φ (runsAll (fun i => isUnsat (rho σ n φ i)) (fwdIvs n a b I)) false
+            = .ok ex := hex
+        exact pres_sel_false (rho σ n φ) (rho σ' n φ) _
+          (ih _ false ex hex' (good_runsAll n _ _ (good_fwd n a b hab I hI)) hag) w hw
+    | ev =>
+      show pres flag (maxOver (t + a) (min (t + b + 1) n) (rho σ n φ))
+        (maxOver (t + a) (min (t + b + 1) n) (rho σ' n φ))
+      apply pres_maxOver
+      intro w h1 h2
+      have hw := fwd_covered n a b I t w ht h1 h2
+      cases flag with
+      | false =>
+        have hex' : explain σ n φ (fwdIvs n a b I) false = .ok ex := hex
+        exact ih _ false ex hex' (good_fwd n a b hab I hI) hag w hw
+      | true =>
+        have hex' : explain σ n φ (runsAll (fun i => isSat (rho σ n φ i)) (fwdIvs n a b I)) true
+            = .ok ex := hex
+        exact pres_sel_true (rho σ n φ) (rho σ' n φ) _
+          (ih _ true ex hex' (good_runsAll n _ _ (good_fwd n a b hab I hI)) hag) w hw
+    | hist =>
+      show pres flag (minOver (t - b) (t + 1 - a) (rho σ n φ))
+        (minOver (t - b) (t + 1 - a) (rho σ' n φ))
+      apply pres_minOver
+      intro w h1 h2
+      have hw := bwd_covered a b I t w ht h1 h2
+      cases flag with
+      | true =>
+        have hex' : explain σ n φ (bwdIvs a b I) true = .ok ex := hex
+        exact ih _ true ex hex' (good_bwd n a b hab I hI) hag w hw
+      | false =>
+        have hex' : explain σ n φ (runsAll (fun i => isUnsat (rho σ n φ i)) (bwdIvs a b I)) false
+            = .ok ex := hex
+        exact pres_sel_false (rho σ n φ) (rho σ' n φ) _
+          (ih _ false ex hex' (good_runsAll n _ _ (good_bwd n a b hab I hI)) hag) w hw
+    | once =>
+      show pres flag (maxOver (t - b) (t + 1 - a) (rho σ n φ))
+        (maxOver (t - b) (t + 1 - a) (rho σ' n φ))
+      apply pres_maxOver
+      intro w h1 h2
+      have hw := bwd_covered a b I t w ht h1 h2
+      cases flag with
+      | false =>
+        have hex' : explain σ n φ (bwdIvs a b I) false = .ok ex := hex
+        exact ih _ false ex hex' (good_bwd n a b hab I hI) hag w hw
+      | true =>
+        have hex' : explain σ n φ (runsAll (fun i => isSat (rho σ n φ i)) (bwdIvs a b I)) true
+            = .ok ex := hex
+        exact pres_sel_true (rho σ n φ) (rho σ' n φ) _
+          (ih _ true ex hex' (good_runsAll n _ _ (good_bwd n a b hab I hI)) hag) w hw
+  | .tb2 _ _ _ _ _, hf, _, _, _, _, _, _, _, _ => by simp [F.explFrag] at hf
+
+
+/-! ### the explainer is total on the fragment -/
+
+theorem both_ok_intro {x y : Except Unit (List (String × Ivs))}
+    (hx : ∃ a, x = .ok a) (hy : ∃ b, y = .ok b) :
+    ∃ ex, (do let a ← x; let b ← y; pure (a ++ b)) = .ok ex := by
+  obtain ⟨a, rfl⟩ := hx
+  obtain ⟨b, rfl⟩ := hy
+  exact ⟨a ++ b, rfl⟩
+
+omit [LawfulVal α] in
+theorem explain_ok_exact (σ : String → Nat → α) (n : Nat) :
+    ∀ (φ : F α), φ.explExact = true → ∀ (I : Ivs) (flag : Bool),
+      ∃ ex, explain σ n φ I flag = .ok ex
+  | .var x, _, I, _ => ⟨[(x, I)], rfl⟩
+  | .const _, _, _, _ => ⟨[], rfl⟩
+  | .un op φ, hx, I, flag => by
+    simp only [F.explExact] at hx
+    have ih := explain_ok_exact σ n φ hx
+    cases op <;> first | exact ih I flag | exact ih I (!flag)
+  | .bin op φ ψ, hx, I, flag => by
+    simp only [F.explExact, Bool.and_eq_true] at hx
+    rw [explain_bin_exact σ n op φ ψ I flag hx.1.1]
+    exact both_ok_intro (explain_ok_exact σ n φ hx.1.2 I flag) (explain_ok_exact σ n ψ hx.2 I flag)
+  | .tmp1 op φ, hx, I, flag => by
+    simp only [F.explExact, Bool.and_eq_true] at hx
+    have ih := explain_ok_exact σ n φ hx.2
+    have hop := hx.1
+    cases op <;> try (simp at hop; done)
+    all_goals (cases flag <;> exact ih _ _)
+  | .tmp2 _ _ _, hx, _, _ => by simp [F.explExact] at hx
+  | .tb1 _ _ _ _, hx, _, _ => by simp [F.explExact] at hx
+  | .tb2 _ _ _ _ _, hx, _, _ => by simp [F.explExact] at hx
+
+omit [LawfulVal α] in
+theorem explain_ok_frag (σ : String → Nat → α) (n : Nat) :
+    ∀ (φ : F α), φ.explFrag = true → ∀ (I : Ivs) (flag : Bool),
+      ∃ ex, explain σ n φ I flag = .ok ex
+  | .var _, hf, _, _ => by simp [F.explFrag] at hf
+  | .const _, hf, _, _ => by simp [F.explFrag] at hf
+  | .un op φ, hf, I, flag => by
+    simp only [F.explFrag, Bool.and_eq_true] at hf
+    cases op <;> try (simp at hf; done)
+    exact explain_ok_frag σ n φ hf.2 I (!flag)
+  | .bin op φ ψ, hf, I, flag => by
+    cases op with
+    | pred c =>
+      simp only [F.explFrag, Bool.and_eq_true] at hf
+      have hx : (F.bin (.pred c) φ ψ).explExact = true := by
+        simp only [F.explExact, Bool.and_eq_true]
+        exact ⟨⟨trivial, explTerm_explExact φ hf.1⟩, explTerm_explExact ψ hf.2⟩
+      exact explain_ok_exact σ n _ hx I flag
+    | and =>
+      simp only [F.explFrag, Bool.and_eq_true] at hf
+      have ih1 := explain_ok_frag σ n φ hf.1
+      have ih2 := explain_ok_frag σ n ψ hf.2
+      cases flag <;> exact both_ok_intro (ih1 _ _) (ih2 _ _)
+    | or =>
+      simp only [F.explFrag, Bool.and_eq_true] at hf
+      have ih1 := explain_ok_frag σ n φ hf.1
+      have ih2 := explain_ok_frag σ n ψ hf.2
+      cases flag <;> exact both_ok_intro (ih1 _ _) (ih2 _ _)
+    | implies =>
+      simp only [F.explFrag, Bool.and_eq_true] at hf
+      have ih1 := explain_ok_frag σ n φ hf.1
+      have ih2 := explain_ok_frag σ n ψ hf.2
+      cases flag <;> exact both_ok_intro (ih1 _ _) (ih2 _ _)
+    | _ => simp [F.explFrag] at hf
+  | .tmp1 op φ, hf, I, flag => by
+    simp only [F.explFrag, Bool.and_eq_true] at hf
+    have ih := explain_ok_frag σ n φ hf.2
+    have hop := hf.1
+    cases op <;> try (simp at hop; done)
+    all_goals (cases flag <;> exact ih _ _)
+  | .tmp2 _ _ _, hf, _, _ => by simp [F.explFrag] at hf
+  | .tb1 op a b φ, hf, I, flag => by
+    simp only [F.explFrag, Bool.and_eq_true] at hf
+    have ih := explain_ok_frag σ n φ hf.2
+    cases op <;> cases flag <;> exact ih _ _
+  | .tb2 _ _ _ _ _, hf, _, _ => by simp [F.explFrag] at hf
+
+/-! ### counterexamples (machine-checked) -/
+
+/-- Three values `0 < 1 < 2` with `neg x = 2 - x`; `zero` is a parameter (`neg 1 = 1`);
+    `sub l r = l`, so that the predicate `x >= x` has the value of `x`. -/
+@[reducible] def val3 (z : Fin 3) : Val (Fin 3) where
+  lt a b := decide (a < b)
+  neg a := Fin.rev a
+  abs a := a
+  add a _ := a
+  sub a _ := a
+  mul a _ := a
+  div a _ := a
+  pinf := 2
+  ninf := 0
+  zero := z
+  sqrt a := a
+  exp a := a
+  ln a := a
+  pow a _ := a
+  log a _ := a
+
+@[reducible] def lawful3 (z : Fin 3) : @LawfulVal (Fin 3) (val3 z) :=
+  letI := val3 z
+  { toLinearOrder := inferInstance
+    toBoundedOrder := inferInstance
+    lt_iff := fun _ _ => decide_eq_true_iff
+    pinf_top := rfl
+    ninf_bot := rfl
+    neg_neg := fun a => Fin.rev_rev a
+    neg_le_neg := fun _ _ h => Fin.rev_le_rev.2 h }
+
+def cexPred (x : String) : F (Fin 3) := .bin (.pred .ge) (.var x) (.var x)
+
+/-- `C20_invariant` fails for `not` explained as "satisfied" when the operand is exactly `0`
+    (here `zero = 1 = neg 1`): `not ((a >= a) and (b >= b))` on `a = b = 1`. -/
+theorem C20_invariant_false_zero :
+    ¬ ∀ (α : Type) (_ : Val α) (_ : LawfulVal α) (_ : Val.neg (Val.zero : α) = Val.zero)
+        (σ σ' : String → Nat → α) (n : Nat) (φ : F α) (_ : φ.explFrag = true)
+        (I : Ivs) (flag : Bool) (ex : List (String × Ivs))
+        (_ : explain σ n φ I flag = .ok ex)
+        (_ : ∀ t, covered I t → t < n)
+        (_ : ∀ t, covered I t → holdsAs flag (rho σ n φ t))
+        (_ : ∀ x t, reported ex x t = true → t < n → σ' x t = σ x t),
+        ∀ t, covered I t → holdsAs flag (rho σ' n φ t) := by
+  intro h
+  have h0 : ∀ t, covered [(0, 0)] t → t = 0 := by
+    rintro t ⟨p, hp, h1, h2⟩
+    rw [List.mem_singleton] at hp; subst hp; omega
+  have := h (Fin 3) (val3 1) (lawful3 1) rfl (fun _ _ => 1) (fun _ _ => 2) 1
+    (.un .not (.bin .and (cexPred "a") (cexPred "b"))) rfl [(0, 0)] true
+    [("a", []), ("a", []), ("b", []), ("b", [])] rfl
+    (fun t ht => by rw [h0 t ht]; exact Nat.one_pos)
+    (fun t ht => by rw [h0 t ht]; show @isSat _ (val3 1) _ = true; decide)
+    (fun x t hr => by simp [reported] at hr)
+    0 ⟨(0, 0), List.mem_singleton.2 rfl, le_rfl, le_rfl⟩
+  exact absurd this (by show ¬ (@isSat _ (val3 1) _ = true); decide)
+
+/-- `C20_invariant` fails on interval lists whose first begin is not the least covered position:
+    `eventually (a >= a)` explained as "violated" on `[(3,3),(0,0)]`. -/
+theorem C20_invariant_false_unsorted :
+    ¬ ∀ (α : Type) (_ : Val α) (_ : LawfulVal α) (_ : Val.neg (Val.zero : α) = Val.zero)
+        (σ σ' : String → Nat → α) (n : Nat) (φ : F α) (_ : φ.explFrag = true)
+        (I : Ivs) (flag : Bool) (ex : List (String × Ivs))
+        (_ : explain σ n φ I flag = .ok ex)
+        (_ : ∀ t, covered I t → t < n)
+        (_ : ∀ t, covered I t → holdsAs flag (rho σ n φ t))
+        (_ : ∀ x t, reported ex x t = true → t < n → σ' x t = σ x t),
+        ∀ t, covered I t → holdsAs flag (rho σ' n φ t) := by
+  intro h
+  have h0 : ∀ t, covered [(3, 3), (0, 0)] t → t = 3 ∨ t = 0 := by
+    rintro t ⟨p, hp, h1, h2⟩
+    simp only [List.mem_cons, List.not_mem_nil, or_false] at hp
+    rcases hp with rfl | rfl
+    · left; omega
+    · right; omega
+  have := h (Fin 3) (val3 1) (lawful3 1) rfl (fun _ _ => 0) (fun _ t => if t = 0 then 2 else 0) 4
+    (.tmp1 .ev (cexPred "a")) rfl [(3, 3), (0, 0)] false
+    [("a", [(3, 3)]), ("a", [(3, 3)])] rfl
+    (fun t ht => by rcases h0 t ht with rfl | rfl <;> omega)
+    (fun t ht => by rcases h0 t ht with rfl | rfl <;> (show @isUnsat _ (val3 1) _ = true; decide))
+    (fun x t hr _ => by
+      have : t = 3 := by
+        simp [reported] at hr
+        omega
+      subst this; rfl)
+    0 ⟨(0, 0), by simp, le_rfl, le_rfl⟩
+  exact absurd this (by show ¬ (@isUnsat _ (val3 1) _ = true); decide)
+
+def cexPhi : F (Fin 3) := .un .not (.bin .or (cexPred "a") (cexPred "b"))
+
+/-- `C20_sufficient_partial` fails when `neg zero ≠ zero` (here `zero = 2`, `neg 2 = 0`):
+    `not ((a >= a) or (b >= b))` on `a = b = 1`; nothing is reported, `a = b = 0` satisfies. -/
+theorem C20_sufficient_partial_false :
+    ¬ ∀ (α : Type) (_ : Val α) (_ : LawfulVal α) (σ σ' : String → Nat → α) (n : Nat) (_ : 0 < n)
+        (φ : F α) (_ : φ.explFrag = true) (ex : List (String × Ivs))
+        (_ : explainSpec σ n φ = .ok ex) (_ : isUnsat (rho σ n φ 0) = true)
+        (_ : ∀ x t, reported ex x t = true → t < n → σ' x t = σ x t),
+        isUnsat (rho σ' n φ 0) = true := by
+  intro h
+  have := h (Fin 3) (val3 2) (lawful3 2) (fun _ _ => 1) (fun _ _ => 0) 1 Nat.one_pos cexPhi rfl
+    [("a", []), ("a", []), ("b", []), ("b", [])] rfl rfl
+    (fun x t hr => by simp [reported] at hr)
+  exact absurd this (by decide)
+
+/-! ### the property -/
+
+/-- Strict polarity: `rho > 0` resp. `rho < 0` (for `flag = false` this is `holdsAs false`). -/
+def holdsStrictly (flag : Bool) (v : α) : Prop := if flag then Val.zero < v else v < Val.zero
+
+/-  The naive generalised invariant —  if the formula has the polarity `flag` at every covered position of
     `I` on the original trace, and `σ'` coincides with `σ` on every position reported when
-    explaining `(I, flag)`, then the formula has polarity `flag` at every covered position on `σ'`. -/
-theorem C20_invariant (σ σ' : String → Nat → α) (n : Nat) (φ : F α) (hfrag : φ.explFrag = true)
+    explaining `(I, flag)`, then the formula has polarity `flag` at every covered position on `σ'`.
+
+    is FALSE (it is not stated as a theorem; refuted by `C20_invariant_false_zero` and
+    `C20_invariant_false_unsorted`; see `C20_invariant_partial`, `C20_invariant_false_partial`
+    and `C20_mono` for what holds).  Counterexamples (values in any lawful instance with the usual
+    arithmetic, e.g. `EReal`; `0` is `F.const 0`):
+    1. `flag = true` and a value exactly `0` under `not` (or in the antecedent of `implies`):
+       `φ = not ((a >= 0) and (b >= 0))`, `n = 1`, `I = [(0,0)]`, `flag = true`, `σ a 0 = 0`,
+       `σ b 0 = 3`: `rho = -0 = 0 >= 0`; the conjunction is explained as "violated", none of its
+       conjuncts is `< 0`, nothing is reported; `σ' a 0 = σ' b 0 = 7` gives `rho = -7 < 0`.
+       ("satisfied" `>= 0` / "violated" `< 0` are not exchanged by negation.)
+    2. an interval list whose first begin is not its least covered position (the unbounded
+       operators only look at the first begin / the last end):
+       `φ = eventually (a >= 0)`, `n = 4`, `I = [(3,3),(0,0)]`, `flag = false`, `σ a t = -1`:
+       only `(a, 3)` is reported; `σ' a 0 = 5` gives `rho σ' φ 0 = 5 >= 0` at the covered `t = 0`.
+    3. `LawfulVal` does not relate `Val.neg` and `Val.zero`: with `zero := 1` (usual order and
+       negation) `φ = not ((a >= 0) or (b >= 0))`, `n = 1`, `I = [(0,0)]`, `flag = false`,
+       `σ a 0 = σ b 0 = 1/2`: `rho = -1/2 < zero`, no disjunct is `>= zero`, nothing is reported;
+       `σ' a 0 = σ' b 0 = -10` gives `rho = 10 >= zero`. -/
+
+/-- The invariant on well-formed interval lists (`Good`: what the explainer produces from
+    `[(0,0)]`), with strict polarities, for values with `neg 0 = 0`. -/
+theorem C20_invariant_partial (hz : Val.neg (Val.zero : α) = Val.zero)
+    (σ σ' : String → Nat → α) (n : Nat) (φ : F α) (hfrag : φ.explFrag = true)
     (I : Ivs) (flag : Bool) (ex : List (String × Ivs))
     (hex : explain σ n φ I flag = .ok ex)
-    (hI : ∀ t, covered I t → t < n)
-    (horig : ∀ t, covered I t → holdsAs flag (rho σ n φ t))
+    (hI : Good n I)
+    (horig : ∀ t, covered I t → holdsStrictly flag (rho σ n φ t))
     (hagree : ∀ x t, reported ex x t = true → t < n → σ' x t = σ x t) :
-    ∀ t, covered I t → holdsAs flag (rho σ' n φ t) := by
-  sorry
+    ∀ t, covered I t → holdsStrictly flag (rho σ' n φ t) := by
+  intro t ht
+  have h := C20_mono hz σ σ' n φ hfrag I flag ex hex hI hagree t ht
+  have ho := horig t ht
+  cases flag with
+  | true => exact lt_of_lt_of_le ho (h ho)
+  | false => exact lt_of_le_of_lt (h ho) ho
 
-/-- C20 (partial): the positions reported for a specification violated at time 0 are a
-    sufficient cause of the violation. -/
-theorem C20_sufficient_partial (σ σ' : String → Nat → α) (n : Nat) (hn : 0 < n) (φ : F α)
+/-- `C20_invariant` for `flag = false` (the polarity of the top-level call), on well-formed
+    interval lists, for values with `neg 0 = 0`. -/
+theorem C20_invariant_false_partial (hz : Val.neg (Val.zero : α) = Val.zero)
+    (σ σ' : String → Nat → α) (n : Nat) (φ : F α) (hfrag : φ.explFrag = true)
+    (I : Ivs) (ex : List (String × Ivs))
+    (hex : explain σ n φ I false = .ok ex)
+    (hI : Good n I)
+    (horig : ∀ t, covered I t → holdsAs false (rho σ n φ t))
+    (hagree : ∀ x t, reported ex x t = true → t < n → σ' x t = σ x t) :
+    ∀ t, covered I t → holdsAs false (rho σ' n φ t) := by
+  intro t ht
+  have := C20_invariant_partial hz σ σ' n φ hfrag I false ex hex hI
+    (fun t ht => (isUnsat_iff _).1 (horig t ht)) hagree t ht
+  exact (isUnsat_iff _).2 this
+
+/-- C20 (partial: on the fragment `explFrag`), for values with `neg 0 = 0` (floats, `EReal`): the
+    positions reported for a specification violated at time 0 are a sufficient cause of the
+    violation — every trace `σ'` that coincides with `σ` on all reported positions violates the
+    specification at time 0.  Without `hz` the statement is false, because `LawfulVal` does not
+    relate `Val.neg` and `Val.zero` (`C20_sufficient_partial_false`). -/
+theorem C20_sufficient_partial (hz : Val.neg (Val.zero : α) = Val.zero)
+    (σ σ' : String → Nat → α) (n : Nat) (hn : 0 < n) (φ : F α)
     (hfrag : φ.explFrag = true) (ex : List (String × Ivs))
     (hex : explainSpec σ n φ = .ok ex) (hviol : isUnsat (rho σ n φ 0) = true)
     (hagree : ∀ x t, reported ex x t = true → t < n → σ' x t = σ x t) :
     isUnsat (rho σ' n φ 0) = true := by
-  sorry
+  unfold explainSpec at hex
+  rw [if_pos hviol] at hex
+  exact C20_invariant_false_partial hz σ σ' n φ hfrag [(0, 0)] ex hex
+    (good_singleton n 0 0 le_rfl hn)
+    (fun t ht => by
+      have : t = 0 := by
+        rw [covered_singleton] at ht; omega
+      subst this; exact hviol)
+    hagree 0 ((covered_singleton 0 0 0).2 ⟨le_rfl, le_rfl⟩)
 
+omit [LawfulVal α] in
 /-- For a specification that is satisfied at time 0 nothing is reported. -/
 theorem C20_satisfied_empty (σ : String → Nat → α) (n : Nat) (φ : F α)
     (hsat : isUnsat (rho σ n φ 0) = false) :
     explainSpec σ n φ = .ok [] := by
-  sorry
+  unfold explainSpec
+  rw [hsat]
+  rfl
 
+omit [LawfulVal α] in
 /-- The explainer is defined on the whole fragment (it raises only on since / until). -/
 theorem C20_defined_on_fragment (σ : String → Nat → α) (n : Nat) (φ : F α) (hfrag : φ.explFrag = true)
-    (I : Ivs) (flag : Bool) : ∃ ex, explain σ n φ I flag = .ok ex := by
-  sorry
+    (I : Ivs) (flag : Bool) : ∃ ex, explain σ n φ I flag = .ok ex :=
+  explain_ok_frag σ n φ hfrag I flag
+
+/-- Non-vacuity: the hypothesis `hz` holds for the extended reals (and for IEEE doubles, `-0.0 == 0.0`). -/
+example : Val.neg (Val.zero : EReal) = Val.zero := by simp [Val.neg, Val.zero]
 
 end Rtamt
